@@ -451,7 +451,9 @@ class Radio:
                 self.sim.count("rx_incompatible")
                 return None
         key = (pkt["pid"], pkt["addr"], data, pkt["noack"]) if pkt["esb"] else None
-        dup = key is not None and key == self.last_rx
+        # datasheet, "PRX operations in Enhanced ShockBurst": the new-packet test (PID + CRC against the previous packet)
+        # is only made when auto-acknowledgement is enabled for the receiving pipe (M4)
+        dup = key is not None and key == self.last_rx and bool(self.r[1] & (1 << pipe))
         stored = False
         if not dup:
             if len(self.rx_fifo) >= 3:
